@@ -51,7 +51,26 @@ def square_tables(EV, CSZ, PLEN, SC_OK, SC_OK_FIRST, scale_ok):
             "encrypted.resize(&self.context, %s.parms_id(), $dest)" % CTXS: RESIZE,
             "encrypted.set_scale(encrypted.scale() * encrypted.scale())": "sc = sc + 1;"},
         "optional": [scale_ok("encrypted", CTXS), scale_ok("encrypted", FIRSTCD)]}
+    CTXM = "self.get_context_data(encrypted1.parms_id())"
+    # `bgv_multiply` (also the fallback route of `bgv_square`): the DATA loops on the flat buffers
+    sk_bgv_mul = {
+        "sig": "fn bgv_multiply(d1: &mut Vec<u64>, size1_in: usize, cf1_in: u64, d2: &[u64], size2: usize, cf2: u64, ntt1: bool, ntt2: bool, "
+               "moduli: &[Modulus], t: &Modulus, n: usize) -> (usize, u64)",
+        "prologue": "let mut size1 = size1_in; let mut cf1 = cf1_in;", "epilogue": "(size1, cf1)",
+        "handles": [CTXM, CTXM + ".parms()"],
+        "exprs": {"encrypted1.is_ntt_form()": "ntt1", "encrypted2.is_ntt_form()": "ntt2", CTXM + ".parms().poly_modulus_degree()": "n",
+                  CTXM + ".parms().coeff_modulus()": "moduli", "encrypted1.size()": "size1", "encrypted2.size()": "size2",
+                  "encrypted1.data()": "d1", "encrypted2.data()": "d2"},
+        "effects": {
+            "encrypted1.resize(&self.context, %s.parms_id(), $dest)" % CTXM:
+                "assert!(!(($dest < HE_CIPHERTEXT_SIZE_MIN && $dest != 0) || $dest > HE_CIPHERTEXT_SIZE_MAX)); "
+                "d1.resize($dest * n * moduli.len(), 0); size1 = $dest;",
+            "encrypted1.polys_mut(0, $dest).copy_from_slice(&$x)": "d1[0 * %s..$dest * %s].copy_from_slice(&$x);" % (PLEN, PLEN),
+            "encrypted1.set_correction_factor(util::multiply_u64_mod(encrypted1.correction_factor(), encrypted2.correction_factor(), %s.parms().plain_modulus()))" % CTXM:
+                "cf1 = util::multiply_u64_mod(cf1, cf2, t);"}}
     return [
+        {"file": EV, "fn": "bgv_multiply", "impl": "Evaluator", "lean": "ct_bgv_multiply", "register_as": "bgv_multiply_ct", "model": "bgvMultiply (Model/Evaluator.lean)",
+         "skeleton": sk_bgv_mul, "consts": CSZ, "panic_escape": True},
         {"file": EV, "fn": "bgv_square", "impl": "Evaluator", "lean": "ct_bgv_square", "register_as": "bgv_square_ct", "model": "bgvSquare (Model/Evaluator.lean)",
          "skeleton": sk_bgv, "consts": CSZ, "panic_escape": True},
         {"file": EV, "fn": "ckks_square", "impl": "Evaluator", "lean": "ct_ckks_square", "register_as": "ckks_square_ct", "model": "ckksSquare + ckksProductBookkeeping",
